@@ -1,11 +1,11 @@
 #!/bin/bash
-# seedtest.sh <patch.diff> <property> [tier]: apply a seeded change to /repo, run the property's check, undo it.
+# seedtest.sh <patch.diff> <property> [tier]: apply a change to a scratch copy of /repo (outside /repo and /verif),
+# run the property's check against that copy, remove the copy. Prints the check's summary lines and "exit=<code>".
 set -u
 patch=$1; prop=$2; tier=${3:-quick}
-cd /repo || exit 2
-if ! git diff --quiet; then echo "seedtest: /repo is dirty"; exit 2; fi
-git apply "$patch" || { echo "seedtest: patch does not apply"; exit 2; }
-/verif/bin/kpv check --property "$prop" --tier "$tier" --no-evidence 2>&1 | grep -a -E "^(C[0-9]+:|VIOLATION|  failed|kpv:)" | cut -c1-400
-rc=${PIPESTATUS[0]}
-git checkout -- . && git clean -fdq
-echo "exit=$rc"
+s=$(mktemp -d /tmp/kpv-seedtest-XXXXXX)
+trap 'rm -rf "$s"' EXIT
+rsync -a --exclude .git /repo/ "$s"/
+( cd "$s" && patch -p1 -s < "$patch" ) || { echo "seedtest: patch does not apply"; echo "exit=2"; exit 2; }
+/verif/bin/kpv check --repo "$s" --property "$prop" --tier "$tier" --no-evidence 2>&1 | grep -a -E "^(C[0-9]+:|VIOLATION|  failed|kpv:)" | cut -c1-400
+echo "exit=${PIPESTATUS[0]}"
